@@ -4,6 +4,7 @@ package chipsim
 // (9303-11 §4.4, BSI TR-03110-3 §B.1/B.2).
 
 import (
+	"bytes"
 	"crypto/sha1"
 	"fmt"
 	"math/big"
@@ -363,6 +364,21 @@ func (c *Chip) camData(p *paceState, ksEnc []byte) (aic []byte, genuine bool, er
 		ones[i] = 0xFF
 	}
 	blk.Encrypt(iv, ones)
-	aic, err = cbcEncrypt(blk, iv, Pad2(caBytes, 16))
+	padded := Pad2(caBytes, 16)
+	switch c.cfg.Personality.CAMPadding {
+	case "marker-junk":
+		for i := len(caBytes) + 1; i < len(padded); i++ {
+			padded[i] = byte(0x11 + i%0x60) // never 00, never 80
+		}
+		if len(caBytes)+1 == len(padded) { // the marker is the last octet: a further block of junk
+			padded = append(padded, bytes.Repeat([]byte{0x33}, 16)...)
+		}
+	case "marker-tail":
+		if len(caBytes)+1 == len(padded) {
+			padded = append(padded, make([]byte, 16)...)
+		}
+		padded[len(padded)-1] = 0x01
+	}
+	aic, err = cbcEncrypt(blk, iv, padded)
 	return aic, genuine, err
 }
